@@ -341,6 +341,102 @@ def run_variant(params, known):
                 violations=out_v, known=kn, samples=samples, outcomes=outcomes, report_keys=['outcomes'])
 
 
+def run_container_histories(params, known):
+    '''What an application may do with the container it hands to send_bundle(): (1) leave the
+    numbering of its extension blocks to the agent (no block numbers given, two and three extension
+    blocks); (2) use one container again for its next bundle (new blocks with the same numbers) -
+    bundles of 700, 333, 40 and 650 octets in a row over an MTU-200 route.  Every bundle is judged
+    like any other: transmissions within the MTU, identity, fragments tiling the payload of THIS
+    bundle, blocks numbered uniquely.'''
+    from .. import env as _env
+    _env.load_bp()
+    from bp.encoding import CanonicalBlock
+    violations = []
+    kinds = set()
+    count = 0
+    keys = set()
+
+    def viol(kind, detail, case):
+        if kind in kinds:
+            return
+        kinds.add(kind)
+        v = Violation(PROP, 'fragment', kind, dict(), '%r: %s' % (case, detail)).as_dict()
+        v['case'] = case
+        violations.append(v)
+
+    def judge_sent(world, start, payload, mtu, case):
+        cover = [0] * len(payload)
+        for octets in world.sent()[start:]:
+            if mtu is not None and len(octets) > mtu:
+                viol('oversized-bundle-transmitted', '%d octets on an MTU-%d route' % (len(octets), mtu), case)
+            try:
+                dec = B.decode(octets)
+            except B.Malformed as err:
+                viol('sent-octets-not-rfc9171', str(err), case)
+                return
+            off = dec['primary'].get('frag_offset', 0) if dec['primary']['flags'] & B.FLAG_IS_FRAGMENT else 0
+            total = dec['primary'].get('total_adu', len(payload)) if dec['primary']['flags'] & B.FLAG_IS_FRAGMENT else len(B.payload(dec))
+            if total != len(payload):
+                viol('total-length-differs', 'announced %d, the payload has %d octets' % (total, len(payload)), case)
+            data = B.payload(dec)
+            if payload[off:off + len(data)] != data:
+                viol('fragment-data-not-from-this-bundle', 'fragment at offset %d' % off, case)
+            for i in range(off, min(off + len(data), len(payload))):
+                cover[i] += 1
+        if any(c != 1 for c in cover):
+            viol('fragments-do-not-tile-the-payload', 'octets covered 0 times: %d, more than once: %d'
+                 % (sum(1 for c in cover if c == 0), sum(1 for c in cover if c > 1)), case)
+    # (1) agent-numbered extension blocks
+    for next_ in (2, 3):
+        for (length, mtu) in ((40, None), (40, 400), (700, 200)):
+            for crc in (0, 1):
+                count += 1
+                case = dict(extension_blocks_without_number=next_, length=length, mtu=mtu, crc=crc)
+                world = BpWorld(dict(node_id=NODE, tx_routes=[('.*', 'dtn://next/', mtu)], rx_routes=[('.*', 'forward')]))
+                bundle = make_bundle(length, crc, 'none', 0, 'local')
+                ctr = impl_container(bundle)
+                for k in range(next_):
+                    ctr.bundle.blocks.insert(0, CanonicalBlock(type_code=200 + k, block_flags=0, crc_type=crc, btsd=b'ext%d' % k))
+                ctr.reload()
+                world.send(ctr)
+                world.quiesce()
+                keys.add('numbered-by-agent/%d/%d/%s/%d' % (next_, length, mtu, crc))
+                if world.escaped or world.api_errors:
+                    esc = (world.escaped or world.api_errors)[-1]
+                    viol('exception-escaped', '%s: %s' % (esc[0], esc[2] if world.escaped else esc[1]), case)
+                    continue
+                if not world.sent():
+                    viol('nothing-sent', 'no bundle left the node', case)
+                judge_sent(world, 0, bundle['blocks'][-1]['data'], mtu, case)
+    # (2) one container, several bundles
+    for lengths in ((700, 333, 40, 650), (40, 700), (333, 700, 700)):
+        for mtu in (200, None):
+            count += 1
+            case = dict(one_container_for_bundles_of=list(lengths), mtu=mtu)
+            world = BpWorld(dict(node_id=NODE, tx_routes=[('.*', 'dtn://next/', mtu)], rx_routes=[('.*', 'forward')]))
+            ctr = None
+            for (k, length) in enumerate(lengths):
+                bundle = make_bundle(length, 1, 'hop', 0, 'local')
+                bundle['primary']['ts'] = (700000000000, 10 + k)
+                bundle['blocks'][-1]['data'] = bytes((i * 7 + 11 * k + 3) & 0xFF for i in range(length))
+                fresh = impl_container(bundle)
+                if ctr is None:
+                    ctr = fresh
+                else:
+                    ctr.bundle.primary = fresh.bundle.primary
+                    ctr.bundle.blocks = fresh.bundle.blocks
+                start = len(world.sent())
+                world.send(ctr)
+                world.quiesce()
+                if world.escaped or world.api_errors:
+                    esc = (world.escaped or world.api_errors)[-1]
+                    viol('exception-escaped', 'bundle %d: %s: %s' % (k + 1, esc[0], esc[2] if world.escaped else esc[1]), case)
+                    break
+                judge_sent(world, start, bundle['blocks'][-1]['data'], mtu, dict(case, bundle=k + 1))
+            keys.add('reuse/%r/%s' % (lengths, mtu))
+    return dict(name=params['name'], evaluations=count, nontrivial_keys=sorted(keys), violations=violations, known=[], samples=[])
+
+
 def run_route_added(params, known):
     '''The transmit table grows while fragments wait to be sent (the adaptors add routes when a
     session comes up): a second route for the same destinations, with a smaller / larger / no MTU and
@@ -414,6 +510,7 @@ def run_route_added(params, known):
 
 def scenarios(tier):
     out = []
+    out.append(dict(name='container-histories', kind='enum', runner='run_container_histories', params=dict(name='container-histories'), weight=100))
     out.append(dict(name='route-added', kind='enum', runner='run_route_added', params=dict(name='route-added'), weight=200))
     for (index, var) in enumerate(variants(tier)):
         (crc, ext, origin, flagname, bib, filt) = var
@@ -431,6 +528,7 @@ ASSUMPTIONS = [
     'payload lengths 0..60, 250..262, 65530..65541; MTUs from just below the empty first fragment up to the whole bundle, '
     'for long payloads MTUs that give 1-3 fragments and the 255/256/65535/65536 boundaries',
     '"nothing sent" is accepted when one-octet fragments would not fit with a conservative slack for worst-case length heads (and for an added integrity block)',
+    'the application leaves the numbering of two / three extension blocks to the agent; one container used again for the next bundle (four bundles in a row over an MTU-200 route)',
     'a second transmit route (other next hop, MTU 80 / 150 / 600 / none) appended before the request, right after it, or after one loop turn, while the fragments of a 300- / 1000-octet bundle wait to be sent',
     'integrity policy: one COSE_Mac0 BIB over the payload applied by the source',
 ]
